@@ -62,6 +62,7 @@ def _drivers():
         "dup-both-wait": (lambda: [T.rleaf(9), T.rleaf(1), T.rleaf(T.ident(1))], ("ok", [109, 101, 101]), [{"r": 1}, {"r": 2}]),
         "dup-parent-late": (lambda: [T.mid(1), T.mid(T.ident(1))], ("ok", [101, 101]), [{}]),
         "dup-rparent-late": (lambda: [T.rmid(1), T.rmid(T.ident(1))], ("ok", [101, 101]), [{"r": 1}, {"r": 2}]),
+        "spawn-races-renominated": (lambda: [T.rleaf(1), T.rleaf(2), T.spawn_r(3)], ("ok", [101, 102, 103]), [{"r": 1}, {"r": 2}]),
         "cse-none": (lambda: [T.nocache(1), T.nocache(T.ident(1))], ("ok", [1, 1]), [{}]),
     }
     return D
